@@ -39,10 +39,10 @@ payload_st = st.lists(st.sampled_from(FRAGS), min_size=1, max_size=4).map("".joi
 POSITIONS = ["noname-path", "noname-remote-path", "selector-error", "url-redirect", "filename", "dirname", "html-title", "subject", "abstract-sidecar",
              "linkfile-name", "linkfile-abstract", "linkfile-path", "linkfile-urlpath", "linkfile-host", "map-desc", "map-sel",
              "map-url", "map-host", "wap-text", "search-item-path", "keywords-sidecar",
-             "url-dirname", "url-filename", "linkfile-url-noscheme", "map-url-noscheme"]
+             "url-dirname", "url-filename", "linkfile-url-noscheme", "map-url-noscheme", "subject-qenc", "subject-b64"]
 HTML_FORMS = ["http", "https", "wap", "waphdr"]
 GP_FORMS = ["gdollar", "gbang"]
-GP_POSITIONS = {"filename", "html-title", "subject", "abstract-sidecar", "linkfile-name", "linkfile-abstract", "map-desc",
+GP_POSITIONS = {"filename", "html-title", "subject", "subject-qenc", "subject-b64", "abstract-sidecar", "linkfile-name", "linkfile-abstract", "map-desc",
                 "keywords-sidecar", "dirname"}
 
 
@@ -127,6 +127,16 @@ def _build(pos, v, n, fill=0):
     elif pos == "subject":
         spec = [["box.mbox", "f", sites.mbox_text([v or "x", "second"])]]
         sel = "/box.mbox"
+    elif pos in ("subject-qenc", "subject-b64"):
+        # RFC 2047 encoded words can carry any byte, CR and LF included, through a well-formed header line
+        import base64
+        raw = v.encode("latin-1")
+        if pos == "subject-qenc":
+            word = "=?utf-8?q?" + "".join(chr(c) if (48 <= c <= 57 or 65 <= c <= 90 or 97 <= c <= 122) else "=%02X" % c for c in raw) + "?="
+        else:
+            word = "=?utf-8?b?" + base64.b64encode(raw).decode() + "?="
+        spec = [["box.mbox", "f", sites.mbox_text([word, "second"])]]
+        sel = "/box.mbox"
     elif pos == "abstract-sidecar":
         spec.append(["d/zz.txt.abstract", "f", v + "\n"])
     elif pos == "keywords-sidecar":
@@ -172,7 +182,8 @@ def _fetch(pos, v, n, form, fill=0):
         if form == "gbang":
             # item info of the decorated item
             target = {"filename": "/d/" + v, "html-title": "/d/page.html", "abstract-sidecar": "/d/zz.txt",
-                      "keywords-sidecar": "/d/zz.txt", "subject": "/box.mbox|/MBOX-MESSAGE/1", "dirname": "/" + v}.get(pos)
+                      "keywords-sidecar": "/d/zz.txt", "subject": "/box.mbox|/MBOX-MESSAGE/1", "dirname": "/" + v,
+                      "subject-qenc": "/box.mbox|/MBOX-MESSAGE/1", "subject-b64": "/box.mbox|/MBOX-MESSAGE/1"}.get(pos)
             if target is None:
                 return None
             selb = world.b(target)
@@ -228,7 +239,7 @@ def check_case(case, ctx):
         q = "\n".join((q if l.strip() else "") for l in p.splitlines())
         if p.endswith(("\n", "\r")):
             q += "\n"
-    fill = case.get("fill", 0) if pos not in ("dirname", "url-dirname", "subject", "wap-text", "selector-error", "url-redirect") else 0
+    fill = case.get("fill", 0) if pos not in ("dirname", "url-dirname", "subject", "subject-qenc", "subject-b64", "wap-text", "selector-error", "url-redirect") else 0
     rp = _fetch(pos, p, case["n"], form, fill)
     if rp is None:
         return []
